@@ -1017,14 +1017,15 @@ SVectorBase<R>& SVectorBase<R>::operator=(const SSVectorBase<S>& sv)
 
    int nnz = 0;
    int idx;
+   const int svsize = sv.size();
 
    Nonzero<R>* e = m_elem;
 
-   for(int i = 0; i < nnz; ++i)
+   for(int i = 0; i < svsize; ++i)
    {
       idx = sv.index(i);
 
-      if(sv.value(idx) != 0.0)
+      if(sv[idx] != 0.0)
       {
          e->idx = idx;
          e->val = sv[idx];
